@@ -458,7 +458,7 @@ func filterFloatformat(in *Value, param *Value) (*Value, *Error) {
 
 	// if the argument is not a number (e. g. empty), the default
 	// behaviour is trim the result
-	trim := !param.IsNumber()
+	trim := !param.IsNumber() && param.Integer() <= 0 // a numeric string such as "3" counts as the number 3
 
 	if decimals <= 0 {
 		// argument is negative or zero, so we
